@@ -44,6 +44,11 @@ func (t *Top) stamp(r Term) Term {
 	return Term{"(" + f + " " + r.S + ")", SInt}
 }
 
+func (t *Top) dotFld(r Term) Term {
+	f := t.ctx.Func("dot_fld", []string{SInt}, SInt)
+	return Term{"(" + f + " " + r.S + ")", SInt}
+}
+
 func (t *Top) dot(r Term, fid int) Term {
 	f := t.ctx.Func("dot", []string{SInt, SInt}, SInt)
 	if !t.usesDot {
@@ -61,7 +66,8 @@ func (t *Top) dot(r Term, fid int) Term {
 // newObject allocates a fresh object reference.
 func (fr *Frame) newObject(st *State, prefix string) Term {
 	x := fr.ctx.Fresh(prefix, SInt)
-	fr.assume(st, And(Eq(fr.top.stamp(x), st.alloc), Not(Eq(x, Nil))))
+	// a freshly allocated object is a root (not a field/array embedded in another object)
+	fr.assume(st, And(Eq(fr.top.stamp(x), st.alloc), Not(Eq(x, Nil)), Eq(fr.top.dotFld(x), IntT(0))))
 	st.alloc = fr.ctx.Def("alloc", IntAdd(st.alloc, IntT(1)))
 	return x
 }
